@@ -48,6 +48,8 @@ def prefix_violations(texts, H, **kw):
     """one incremental run; returns (pairs checked, violations)"""
     r = oracles.impl_models(texts, H, **kw)
     if r[0] == "err":
+        if r[1] == "Timeout":
+            return 0, []
         return 0, [{"what": "exception " + r[1], "message": r[2]}]
     res = r[1]
     n = 0
@@ -105,6 +107,15 @@ def search(ctx, deep):
             texts.append("#program always. { a; b }.\n#program %s. :- &tel { %s }, not a." % (part, tl.render_tel(f)))
         else:
             texts.append("#program always. { a; b }.\n#program %s. q :- not &tel { %s }." % (part, tl.render_tel(f)))
+    # clingo features next to the temporal ones: user externals (both default values), #show, facts with arguments, pools
+    feats = ["#program always. #external x. [true]\n", "#program always. #external x. [false]\n#program initial. #external y. [true]\n",
+             "#program dynamic. #external x. [true]\n", "#program always. #external x(1..2). [true]\n"]
+    nbase = len(texts)
+    for i in range(0, min(nbase, 60 if ctx.tier == "quick" else 600)):
+        f = feats[i % len(feats)]
+        use = r.choice(["#program always. c :- x, 'a.", "#program dynamic. { c } :- x, not 'b.", "#program always. :- x, a, 'a, ''a.",
+                        "#program always. c :- not x, b."]).replace("x,", "x(1)," if "x(1..2)" in f else "x,").replace("not x,", "not x(2)," if "x(1..2)" in f else "not x,")
+        texts.append(f + texts[i] + "\n" + use)
     H = 3
     work = [(ctx.seed + j, c, H) for j, c in enumerate(par.chunks(texts, ctx.jobs * 2))]
     npairs = 0
